@@ -14,11 +14,28 @@ NAME_TOKENS = {"valid": "okname", "declared_prefix": "odk:okname", "undeclared_p
                "quote": 'a"b', "amp": "a&b", "dot_dash": "a.b-c", "non_ascii": "énom"}
 # characters no XML 1.0 document may contain, written into *text* positions
 TEXT_TOKENS = {"ctrl_01": "a\x01b", "ctrl_0b": "a\x0bb", "ctrl_1f": "a\x1fb", "del_7f": "a\x7fb", "nonchar_fffe": "a￾b", "tab_newline": "a\tb\nc", "nel_85": "a\x85b"}
+# tokens at the edges of the XML Name character classes (× U+00D7 and ÷ U+00F7 sit *between* letter ranges; U+00B7 and combining
+# marks are name characters but not name-start characters; U+037E is excluded), for the places that take element names
+EDGE_TOKENS = {"division_sign_inside": "a÷b", "multiplication_sign_inside": "a×b", "division_sign_first": "÷a", "middle_dot_inside": "a·b",
+               "middle_dot_first": "·a", "greek_question_mark": "a;b", "combining_mark_inside": "áb", "combining_mark_first": "́ab", "latin_letters_around": "ö_ø_ÿ",
+               "colon_inside": "a:b", "underscore_first": "_ab", "hyphen_first": "-ab", "dot_first": ".ab"}
+ELEMENT_NAME_CHANNELS = ["question_name", "group_name", "repeat_name", "settings_name"]
 NAME_CHANNELS = ["choices_column", "bind_suffix", "instance_suffix", "body_suffix", "settings_attribute", "namespaces_prefix"]
 TEXT_CHANNELS = ["label", "hint", "choice_label", "default", "title", "constraint_message", "itext_label", "choice_extra", "appearance"]
 
 
 def name_form(channel, tok):
+    if channel in ELEMENT_NAME_CHANNELS:
+        rows = [["text", "q1", "Q1"]]
+        settings = None
+        if channel == "question_name":
+            rows.append(["integer", tok, "Q"])
+        elif channel in ("group_name", "repeat_name"):
+            k = channel.split("_")[0]
+            rows += [[f"begin {k}", tok, "S"], ["text", "inner", "I"], [f"end {k}", None, None]]
+        else:
+            settings = {"name": "settings", "header": ["name"], "rows": [[tok]]}
+        return {"sheets": [{"name": "survey", "header": ["type", "name", "label"], "rows": rows}] + ([settings] if settings else [])}
     survey = {"name": "survey", "header": ["type", "name", "label"], "rows": [["text", "q1", "Q1"], ["select_one L", "q2", "Q2"]]}
     choices = {"name": "choices", "header": ["list_name", "name", "label"], "rows": [["L", "l1", "L1"]]}
     settings = None
@@ -120,6 +137,9 @@ def run(rep):
             if ch == "namespaces_prefix" and ":" in tok:
                 continue
             jobs.append({"wb": name_form(ch, tok), "fmt": "dict", "parts": ("c01",), "tag": {"name_channel": ch, "token": cls}})
+    for ch in ELEMENT_NAME_CHANNELS:
+        for cls, tok in {**NAME_TOKENS, **EDGE_TOKENS}.items():
+            jobs.append({"wb": name_form(ch, tok), "fmt": "dict", "parts": ("c01",), "tag": {"name_channel": ch, "token": cls}})
     for ch in TEXT_CHANNELS:
         for cls, text in TEXT_TOKENS.items():
             jobs.append({"wb": text_form(ch, text), "fmt": "dict", "parts": ("c01",), "tag": {"text_channel": ch, "token": cls}})
@@ -130,7 +150,11 @@ def run(rep):
     sub, acc, rejected = _xml.validate_docs(rep, PROP, outs, "all form families, compact and pretty")
     for o, clause in rejected:
         tag = o["job"].get("tag") or {}
-        if "name_channel" in tag:
+        if "name_channel" in tag and tag["name_channel"] in ELEMENT_NAME_CHANNELS:
+            # element names are validated by the converter; what it lets through is classified by token family
+            fam = "colon" if tag["token"] in ("colon_inside", "undeclared_prefix", "declared_prefix") else tag["token"]
+            sig = f"{PROP}:unvalidated_xml_name:{tag['name_channel']}:{fam}"
+        elif "name_channel" in tag:
             sig = f"{PROP}:unvalidated_xml_name:{tag['name_channel']}"
         elif "text_channel" in tag:
             sig = f"{PROP}:illegal_xml_character"
